@@ -263,10 +263,8 @@ def run_property(modname, tier, seed, replay=None):
                     found = _search(s, c2, tier, seed, pid)
                     if found is not None:
                         c3, r3 = shrink_failure(s, *found)
-                        kf = findings.match(pid, r3["sig"])
-                        if kf is not None:
-                            known_hits[kf["id"]] = kf
-                            continue
+                        if findings.match(pid, r3["sig"]) is not None:
+                            c3, r3 = found  # shrinking drifted into a listed finding: report the unshrunk failing input
                         path = write_replay(pid, s.name, c3, r3, dict(found_after_correspondence_break=r2["clause"]))
                         violations.append(dict(stream=s.name, clause=r3["clause"], replay=path, found_input=True))
                     else:
@@ -330,6 +328,8 @@ def _search(stream, case, tier, seed, pid, budget=None):
                 return None
             r = run_case(stream, c)
             if not r["ok"] and r["kind"] == "oracle":
+                if findings.match(pid, r["sig"]) is not None:
+                    continue  # a listed finding is not an explanation of the break: keep searching
                 return c, r
     return None
 
